@@ -195,7 +195,8 @@ CONFIG["C07"] = dict(
                "Schedule quantifier (Feldman-VSS-Qual, participant other than the dealer, every crypto record): any two deliveries the network may reorder (different senders, or one sender's private and broadcast channel) commute "
                "(delivery_pair_commutes: both orders disqualified, or the same state up to the order of the complaint table); the invariants used are preserved by every delivery and timeout; the state after a round is independent of the delivery order "
                "(round_order_independent, for any two orders with the same stream per sender and channel); End returns the same verdict and keys for every delivery order of the three rounds (end_result_order_independent). "
-               "Partial: the relation between two different honest receivers of one execution (their private inputs differ) and the dealer-side instance inside Joint-Feldman are exercised by randomized and exhaustive short schedules against the model and by the agreement predicates.",
+               "The same for Joint-Feldman, where the participant is also the dealer of one of the n parallel instances (dealer_pair, joint_end_order_independent; tie_joint relates the Joint handlers to the per-instance steps). "
+               "Partial: the relation between two different honest receivers of one execution (their private inputs differ) is exercised by randomized and exhaustive short schedules against the model and by the agreement predicates.",
     level_note="Lean kernel + correspondence; reliable broadcast and round synchrony are assumptions of the property, implemented by the scheduler",
     assumptions=["reliable broadcast, round-synchronous delivery, at most t Byzantine participants"],
 )
